@@ -16,6 +16,23 @@
 #include <dispenso/detail/per_thread_info.h>
 #include <dispenso/thread_pool.h>
 
+// Verification builds: poll the child-list mutex at a schedule point before really locking it, so
+// that a controlled scheduler never has a thread blocked on a mutex whose holder is parked at a
+// schedule point (a cascading cancel() parks at every child's flag store while it holds the lock).
+// Under the controlled scheduler nothing runs between unlock() and the lock_guard that follows.
+#if defined(DISPENSO_VERIF)
+#define DISPENSO_VERIF_TS_POLL_LOCK(site, mtx) \
+  do {                                         \
+    DISPENSO_VERIF_POINT(site, this);          \
+    while (!(mtx).try_lock()) {                \
+      DISPENSO_VERIF_POINT(site, this);        \
+    }                                          \
+    (mtx).unlock();                            \
+  } while (0)
+#else
+#define DISPENSO_VERIF_TS_POLL_LOCK(site, mtx) ((void)0)
+#endif // DISPENSO_VERIF
+
 namespace dispenso {
 
 /**
@@ -61,7 +78,9 @@ class TaskSetBase {
 
     if (parent_) {
       parent_->registerChild(this);
+      DISPENSO_VERIF_POINT("TsCtorLoadPCancel", this);
       if (parent_->canceled()) {
+        DISPENSO_VERIF_POINT("TsCtorStoreCancel", this);
         canceled_.store(true, std::memory_order_release);
       }
     }
@@ -79,6 +98,7 @@ class TaskSetBase {
   }
 
   void cancel() {
+    DISPENSO_VERIF_POINT("TsCancelStore", this);
     canceled_.store(true, std::memory_order_release);
     cancelChildren();
   }
@@ -94,6 +114,7 @@ class TaskSetBase {
    **/
 #if defined(__cpp_exceptions)
   bool hasException() const {
+    DISPENSO_VERIF_POINT("TsHasExcLoad", this);
     return guardException_.load(std::memory_order_acquire) != kUnset;
   }
 #else
@@ -115,6 +136,7 @@ class TaskSetBase {
  protected:
   template <typename F>
   auto packageTask(F&& f) {
+    DISPENSO_VERIF_POINT("TsPkgInc", this);
     outstandingTaskCount_.fetch_add(1, std::memory_order_acquire);
     return [this, f = std::move(f)]() mutable {
       // Skip push/pop if this TaskSet is already the current parent on this
@@ -125,6 +147,7 @@ class TaskSetBase {
       if (pushed) {
         detail::pushThreadTaskSet(this);
       }
+      DISPENSO_VERIF_POINT("TsPkgLoadCancel", this);
       if (!canceled_.load(std::memory_order_acquire)) {
 #if defined(__cpp_exceptions)
         try {
@@ -139,6 +162,7 @@ class TaskSetBase {
       if (pushed) {
         detail::popThreadTaskSet();
       }
+      DISPENSO_VERIF_POINT("TsPkgDec", this);
       outstandingTaskCount_.fetch_sub(1, std::memory_order_release);
     };
   }
@@ -154,6 +178,7 @@ class TaskSetBase {
       if (pushed) {
         detail::pushThreadTaskSet(this);
       }
+      DISPENSO_VERIF_POINT("TsPkgLoadCancel", this);
       if (!canceled_.load(std::memory_order_acquire)) {
 #if defined(__cpp_exceptions)
         try {
@@ -168,6 +193,7 @@ class TaskSetBase {
       if (pushed) {
         detail::popThreadTaskSet();
       }
+      DISPENSO_VERIF_POINT("TsPkgDec", this);
       outstandingTaskCount_.fetch_sub(1, std::memory_order_release);
     };
   }
@@ -193,6 +219,7 @@ class TaskSetBase {
   // for external callers. Separated from scheduleBulkImpl for CCN reduction.
   DISPENSO_INLINE bool
   shouldInlineBulk(ssize_t curWork, ssize_t numPool, float poolRecursiveLoadFactor) const {
+    DISPENSO_VERIF_POINT("TsBulkLoadLf", this);
     return (detail::PerPoolPerThreadInfo::isPoolRecursive(&pool_) &&
             curWork >
                 static_cast<ssize_t>(static_cast<float>(numPool) * poolRecursiveLoadFactor)) ||
@@ -209,14 +236,17 @@ class TaskSetBase {
       return;
     }
 
+    DISPENSO_VERIF_POINT("TsBulkLoadThreads", this);
     ssize_t numPool = pool_.numThreads();
 
     // Ring fast path: for kStatic parallel_for where count ≈ numPool.
     // Push task i directly to ring i for deterministic thread-to-chunk affinity.
+    DISPENSO_VERIF_POINT("TsBulkLoadRings", this);
     if (count * 4 >= static_cast<size_t>(numPool) && count <= static_cast<size_t>(numPool) &&
         pool_.numRings_.load(std::memory_order_relaxed) >= count &&
         !detail::PerPoolPerThreadInfo::isPoolRecursive(&pool_) &&
         outstandingTaskCount_.load(std::memory_order_relaxed) <= taskSetLoadFactor_) {
+      DISPENSO_VERIF_POINT("TsBulkIncN", this);
       outstandingTaskCount_.fetch_add(static_cast<ssize_t>(count), std::memory_order_acquire);
       pool_.scheduleBulkToRings(
           count, [this, &gen](size_t j) { return packageTaskNoIncrement(gen(j)); }, token);
@@ -231,10 +261,13 @@ class TaskSetBase {
 
     size_t i = 0;
     while (i < count) {
+      DISPENSO_VERIF_POINT("TsBulkLoadCancel", this);
       if (canceled()) {
         break;
       }
+      DISPENSO_VERIF_POINT("TsBulkLoadOut", this);
       ssize_t outstanding = outstandingTaskCount_.load(std::memory_order_relaxed);
+      DISPENSO_VERIF_POINT("TsBulkLoadWork", this);
       ssize_t curWork = pool_.workRemaining_.load(std::memory_order_relaxed);
       ssize_t room = taskSetLoadFactor_ - outstanding;
 
@@ -248,6 +281,7 @@ class TaskSetBase {
         // when the task-set load factor says there is no room.
         size_t enqueueLimit = room > 0 ? std::min(chunkSize, static_cast<size_t>(room)) : chunkSize;
         size_t toEnqueue = std::min(count - i, enqueueLimit);
+        DISPENSO_VERIF_POINT("TsBulkIncN", this);
         outstandingTaskCount_.fetch_add(static_cast<ssize_t>(toEnqueue), std::memory_order_acquire);
         size_t base = i;
         pool_.scheduleBulkEnqueue(
@@ -268,6 +302,7 @@ class TaskSetBase {
       return;
     }
 
+    DISPENSO_VERIF_POINT("TsBulkLoadThreads", this);
     ssize_t numPool = pool_.numThreads();
     size_t chunkSize = static_cast<size_t>(numPool) + static_cast<size_t>(numPool) / 2;
     if (chunkSize < 1) {
@@ -276,10 +311,13 @@ class TaskSetBase {
 
     size_t i = 0;
     while (i < count) {
+      DISPENSO_VERIF_POINT("TsBulkLoadCancel", this);
       if (canceled()) {
         break;
       }
+      DISPENSO_VERIF_POINT("TsBulkLoadOut", this);
       ssize_t outstanding = outstandingTaskCount_.load(std::memory_order_relaxed);
+      DISPENSO_VERIF_POINT("TsBulkLoadWork", this);
       ssize_t curWork = pool_.workRemaining_.load(std::memory_order_relaxed);
       ssize_t room = taskSetLoadFactor_ - outstanding;
 
@@ -292,6 +330,7 @@ class TaskSetBase {
         // when the task-set load factor says there is no room.
         size_t enqueueLimit = room > 0 ? std::min(chunkSize, static_cast<size_t>(room)) : chunkSize;
         size_t toEnqueue = std::min(count - i, enqueueLimit);
+        DISPENSO_VERIF_POINT("TsBulkIncN", this);
         outstandingTaskCount_.fetch_add(static_cast<ssize_t>(toEnqueue), std::memory_order_acquire);
         size_t base = i;
         pool_.scheduleBulkPlaced(toEnqueue, [this, &gen, base](size_t j) {
@@ -312,6 +351,7 @@ class TaskSetBase {
     if (count == 0) {
       return;
     }
+    DISPENSO_VERIF_POINT("TsBulkLoadThreads", this);
     ssize_t numPool = pool_.numThreads();
     size_t chunkSize = static_cast<size_t>(numPool) + static_cast<size_t>(numPool) / 2;
     if (chunkSize < 1) {
@@ -319,10 +359,12 @@ class TaskSetBase {
     }
     size_t i = 0;
     while (i < count) {
+      DISPENSO_VERIF_POINT("TsBulkLoadCancel", this);
       if (canceled()) {
         break;
       }
       size_t toEnqueue = std::min(count - i, chunkSize);
+      DISPENSO_VERIF_POINT("TsBulkIncN", this);
       outstandingTaskCount_.fetch_add(static_cast<ssize_t>(toEnqueue), std::memory_order_acquire);
       size_t base = i;
       pool_.scheduleBulkEnqueue(
@@ -337,6 +379,7 @@ class TaskSetBase {
   bool testAndResetException();
 
   void registerChild(TaskSetBase* child) DISPENSO_NO_THREAD_SAFETY_ANALYSIS {
+    DISPENSO_VERIF_TS_POLL_LOCK("TsKidsLock", mtx_);
     std::lock_guard<std::mutex> lk(mtx_);
 
     child->prev_ = tail_;
@@ -350,6 +393,7 @@ class TaskSetBase {
   }
 
   void unregisterChild(TaskSetBase* child) DISPENSO_NO_THREAD_SAFETY_ANALYSIS {
+    DISPENSO_VERIF_TS_POLL_LOCK("TsKidsLock", mtx_);
     std::lock_guard<std::mutex> lk(mtx_);
 
     if (child->prev_) {
@@ -369,6 +413,7 @@ class TaskSetBase {
   }
 
   void cancelChildren() DISPENSO_NO_THREAD_SAFETY_ANALYSIS {
+    DISPENSO_VERIF_TS_POLL_LOCK("TsKidsLock", mtx_);
     std::lock_guard<std::mutex> lk(mtx_);
 
     auto* node = head_;
